@@ -128,7 +128,7 @@ impl DocGen {
                 hostile_bytes(rng, 6)
             }
         } else {
-            let xs: &[&[u8]] = &[b"Type", b"A", b"Kids", b"Font", b"F1", b"Subtype", b"X", b"Name1", b"Key", b"Lime Green", b"A;Name_With-Various***Characters?", b"1.2", b"$$", b"@pattern", b".notdef"];
+            let xs: &[&[u8]] = &[b"Type", b"A", b"Kids", b"Font", b"F1", b"Subtype", b"X", b"Name1", b"XRef", b"ObjStm", b"Type", b"XRef", b"Key", b"Lime Green", b"A;Name_With-Various***Characters?", b"1.2", b"$$", b"@pattern", b".notdef"];
             rng.pick(xs).to_vec()
         }
     }
@@ -187,14 +187,6 @@ impl DocGen {
         for _ in 0..rng.below(5) {
             let k = self.key(rng);
             let v = self.object(rng, depth + 1);
-            // objects typed XRef / ObjStm are never written by save (bookkeeping) - keep them out
-            if k == b"Type" {
-                if let Object::Name(n) = &v {
-                    if n == b"XRef" || n == b"ObjStm" {
-                        continue;
-                    }
-                }
-            }
             d.set(k, v);
         }
         d
@@ -232,6 +224,10 @@ impl DocGen {
         d.remove(b"Length");
         d.remove(b"Filter");
         d.remove(b"DecodeParms");
+        // a STREAM typed XRef / ObjStm is structure of a file, not content of a document (a dictionary so typed is)
+        if matches!(d.get(b"Type").and_then(Object::as_name), Ok(b"XRef") | Ok(b"ObjStm")) {
+            d.remove(b"Type");
+        }
         Object::Stream(Stream::new(d, content))
     }
 
